@@ -1,9 +1,12 @@
 mod ast;
 mod c01;
+mod c03;
 mod c06;
+mod c14;
 mod corpus;
 mod ev;
 mod refbin;
+mod refocf;
 mod su;
 mod val;
 
@@ -25,6 +28,9 @@ fn main() {
         "quick" => (Tier::Quick, None),
         "thorough" => (Tier::Thorough, None),
         "--replay" => {
+            if args.len() < 4 {
+                usage();
+            }
             let text = std::fs::read_to_string(&args[3]).unwrap_or_else(|e| ev::machinery(&format!("replay file: {e}")));
             let j: serde_json::Value = serde_json::from_str(&text).unwrap_or_else(|e| ev::machinery(&format!("replay file: {e}")));
             let t = if j["tier"] == "thorough" { Tier::Thorough } else { Tier::Quick };
@@ -39,7 +45,9 @@ fn main() {
     let code = match id {
         "C01" => c01::run_c01(tier, filter, depth),
         "C02" => c01::run_c02(tier, filter, depth),
+        "C03" => c03::run_check(tier, replay.as_ref()),
         "C06" => c06::run(tier, filter),
+        "C14" => c14::run(tier, replay.as_ref()),
         _ => ev::machinery(&format!("unknown property {id}")),
     };
     std::process::exit(code);
